@@ -23,7 +23,7 @@ def run(ctx):
     else:
         cfg = "Compr_quick.cfg" if ctx.tier == "quick" else "Compr_thorough.cfg"
         ctx.tlc("sem", "Compr", cfg, cases_path=cases, timeout_s=900,
-                workers=min(8, int(os.environ.get("VERIF_TLC_WORKERS") or 8)), coverage=(ctx.tier == "thorough"))
+                workers=min(8, int(os.environ.get("VERIF_TLC_WORKERS") or 8)))
     h = ctx.build_harness("semh")
     res = ctx.run_harness(h, ["compr"], cases, timeout_s=2400)
     ctx.tally(res, cases_path=cases)
